@@ -122,6 +122,19 @@ def main():
     rng = run.rng
     quick = run.tier == "quick"
     reqs = []
+    # ---- corpus (minimised past failures) first
+    import json as _json
+    from common import VERIF as _VERIF
+    cdir = _VERIF / "corpus" / "C17"
+    if cdir.exists():
+        for cp in sorted(cdir.glob("*.json")):
+            c = _json.loads(cp.read_text())
+            bs, names, keys, locked = c["state"]
+            st = (tuple(bs), None if names is None else tuple(names), [tuple(k) for k in keys], bool(locked))
+            op = tuple(tuple(x) if isinstance(x, list) else x for x in c["op"])
+            args = tuple(tuple(x) if isinstance(x, list) else x for x in c["args"])
+            edits = [tuple(tuple(y) if isinstance(y, list) else y for y in e) for e in c["edits"]]
+            reqs.append(("with:corpus", st, op, args, c["kwargs"], edits))
     nstates = 260 if quick else 2500
     for i in range(nstates):
         name = rng.choice(["transpose", "permute", "squeeze", "unsqueeze", "flatten", "unflatten", "view",
